@@ -9,5 +9,8 @@ let dispatch = function
   | "nav" -> let fuel = next_nat () in let l = next_mat next_q in let d = next_mat next_q in
       let mh = next_opt next_nat in
       p_opt (p_pair p_q (p_list (p_pair (p_list p_nat) (p_pair (p_opt p_nat) (p_pair (p_opt p_q) (p_opt p_q)))))) (run_nav fuel l d mh)
+  | "navx" -> let fuel = next_nat () in let l = next_mat next_q in let d = next_mat next_q in
+      let mh = next_opt next_nat in
+      p_pair p_nat (p_opt (p_pair p_q (p_list (p_pair (p_list p_nat) (p_pair (p_opt p_nat) (p_pair (p_opt p_q) (p_opt p_q))))))) (run_nav_x fuel l d mh)
   | f -> failwith ("unknown function " ^ f)
 let () = main dispatch
